@@ -168,7 +168,8 @@ def _c03_monitor(sc, c, outcome):
     for v in ms.mon_c03(sc, c):
         # attributed to a finding only if every offending key belongs to a connection with that finding's feature;
         # keys fed by a simulator that omits its persistent outputs are not claimed at all
-        classes = [ms.c03_conn_class(sc, v["sim"], k) for k in v.pop("keys", [])]
+        nonmono = set(v.pop("nonmono", []))
+        classes = [ms.c03_conn_class(sc, v["sim"], k, nonmono) for k in v.pop("keys", [])]
         classes = [x for x in classes if x != "C03-sparse-persistent"]
         if not classes:
             continue
